@@ -168,6 +168,20 @@ def zst_cap_search(tier, seed, hbin, rundir, _alarm):
                 step=len(lines) - 2, why=lines[0], impl=lines[0], no_minimise=True)
 
 
+def drops_search(tier, seed, hbin, rundir, _alarm):
+    """drop balance: no value dropped twice, none leaked (C10), clear / drain drop everything
+    (C16); item / priority types with and without drop glue.  Implementation only."""
+    count = 3000 if tier == "quick" else 60000
+    p = subprocess.run([hbin, "drops", str(seed), str(count), "60"], stdout=subprocess.PIPE,
+                       stderr=subprocess.STDOUT, text=True)
+    drops_search.stats = dict(drop_balance_histories=count, drop_balance_ops=count * 60)
+    if p.returncode == 0:
+        return None
+    lines = p.stdout.strip().split("\n")
+    return dict(header="(drop balance of instrumented item / priority types; see harness/src/drops.rs)",
+                ops=[l.strip() for l in lines[1:]], step=len(lines) - 2, why=lines[0], impl=lines[0], no_minimise=True)
+
+
 def huge(kinds, aspects):
     """queues of 66 000 .. 133 000 elements (thorough: .. 1 050 000), straddling the
     powers of two 2^16 .. 2^20: far beyond what the extracted model can run.
